@@ -63,8 +63,10 @@ impl PriorityReceiver {
 			return Some(message);
 		}
 
+		// biased: when several queues are ready at wake-up, the more urgent one is served first
 		if let Some(timer) = stop_timer.clone() {
 			select! {
+				biased;
 				() = timer.to_sleep() => {
 					*stop_timer = None;
 					Some(timer.to_control())
@@ -74,6 +76,7 @@ impl PriorityReceiver {
 			}
 		} else {
 			select! {
+				biased;
 				message = self.urgent.recv() => message,
 				message = self.high.recv() => message,
 				message = self.normal.recv() => message,
